@@ -24,7 +24,7 @@ SEP_NAMES = ['a b', 'a:b', 'a,b', 'a\tb', 'a\nb', ' a', 'b ']
 
 
 def enc(s, wide):
-    if s == '':
+    if len(s) == 0:
         return '-'
     if isinstance(s, str):
         return '.'.join('%x' % ord(c) for c in s) if wide else s.encode('utf-8').hex()
@@ -116,6 +116,96 @@ class Acl(Engine):
                     ops.append(f'rt {st | sel} {want}')
             ops.append(f'totext {rng.randrange(32) | rng.choice([0, ACCESS, DEFAULT, 0x300, 1024, 2048])}')
             yield Case(f'rt{i}', ops)
+        yield from self.gen_parse(rng, tier)
+
+    # ---- parser stream -----------------------------------------------------
+    def valid_text(self, rng, nfs4):
+        """A mostly valid ACL text in one of the many spellings the parser accepts."""
+        ents = []
+        for _ in range(rng.choice([1, 1, 2, 3, 6])):
+            nm = rng.choice(['', '', 'bob', 'ö', 'a1', '77', '1000', 'x#y', 'default', 'd'])
+            idf = rng.choice(['', '', '5', '1000', '2147483647', '2147483648', '99999999999', '007', 'x'])
+            if nfs4:
+                tag = rng.choice(['user', 'group', 'owner@', 'group@', 'everyone@', 'owner', 'User', 'everyone'])
+                perms = ''.join(c for c in 'rwxpdDaARWcCos' if rng.random() < 0.5) if rng.random() < 0.7 else \
+                    ''.join(c if rng.random() < 0.5 else '-' for c in 'rwxpdDaARWcCos')
+                flags = ''.join(c if rng.random() < 0.4 else rng.choice(['-', '']) for c in 'fdinSFI')
+                ty = rng.choice(['allow', 'deny', 'audit', 'alarm', 'allow', 'Allow', 'den', ''])
+                f = [tag] + ([nm] if tag in ('user', 'group') else []) + [perms, flags, ty]
+                if idf and rng.random() < 0.6:
+                    f.append(idf)
+            else:
+                tag = rng.choice(['user', 'group', 'other', 'mask', 'u', 'g', 'o', 'm', 'users', 'us', 'x', ''])
+                mode = rng.choice(['rwx', 'r-x', '---', 'rw', 'r', 'RWX', '-', 'rwxx', 'rz', '', '7'])
+                if tag in ('other', 'mask', 'o', 'm') and rng.random() < 0.5:
+                    f = [tag, mode]                      # Solaris style
+                else:
+                    f = [tag, nm if tag[:1] in ('u', 'g') else rng.choice(['', '', 'x']), mode]
+                if idf and rng.random() < 0.5:
+                    f.append(idf)
+                r = rng.random()
+                if r < 0.2:
+                    f = ['default'] + f
+                elif r < 0.3:
+                    f = ['d'] + f
+                elif r < 0.4:
+                    f[0] = 'default' + f[0]
+                elif r < 0.43:
+                    f = ['default']
+            if rng.random() < 0.15:
+                f = [rng.choice([' ', '\t', '  ']) + x + rng.choice([' ', '', '\t ']) for x in f]
+            e = ':'.join(f)
+            if rng.random() < 0.1:
+                e += rng.choice(['#c', ' # comment: with, no', '#'])
+            if rng.random() < 0.05:
+                e = '#' + e
+            ents.append(e)
+        t = rng.choice([',', '\n', ', ', '\n\n']).join(ents)
+        return t + rng.choice(['', '', '\n', ',', ' ', ':', '#'])
+
+    def mutate(self, rng, t, wide):
+        alpha = ':,\n \t#' * 3 + 'usergopmdfaultkhnywev@-rwxRWXpDaAcCsSFIin0123456789'
+        t = list(t)
+        for _ in range(rng.choice([0, 1, 1, 2, 4])):
+            r = rng.random()
+            i = rng.randrange(len(t) + 1)
+            if r < 0.35 and t:
+                del t[min(i, len(t) - 1)]
+            elif r < 0.7:
+                t.insert(i, rng.choice(alpha))
+            elif t:
+                t[min(i, len(t) - 1)] = rng.choice(alpha)
+        return ''.join(t)
+
+    def gen_parse(self, rng, tier):
+        n = 1500 if tier == 'quick' else 60000
+        for i in range(n):
+            wide = rng.random() < 0.4
+            ops = ['variant ' + ('w' if wide else 'n')]
+            if rng.random() < 0.3:
+                ops.append('mode %o' % rng.randrange(0o1000))
+            if rng.random() < 0.15:       # parse into an ACL that already has entries
+                ops += (self.nfs4_entries if rng.random() < 0.5 else self.posix_entries)(rng, wide)[:3]
+            for _ in range(rng.choice([1, 1, 2, 3])):
+                nfs4 = rng.random() < 0.45
+                r = rng.random()
+                if r < 0.75:
+                    t = self.mutate(rng, self.valid_text(rng, nfs4), wide)
+                    t = [ord(c) for c in t] if wide else list(t.encode('utf-8'))
+                else:
+                    alpha = [58, 58, 44, 10, 32, 9, 35, 100, 117, 103, 111, 109, 114, 119, 120, 45, 48, 57, 64, 101]
+                    hi = [0xe9, 0x4e2d, 0x1f600, 0x7f, 1] if wide else [0xc3, 0xa9, 0xff, 0x80, 1, 0]
+                    t = [rng.choice(alpha + hi) if rng.random() < 0.9 else rng.randrange(1, 0x250 if wide else 256)
+                         for _ in range(rng.choice([0, 1, 2, 3, 5, 9, 17, 40]))]
+                want = rng.choice([0x100, 0x100, 0x200, 0x300, 0x3c00, 0x3c00] if rng.random() < 0.95 else [0, 0x400, 0x3f00, 1])
+                if nfs4 and rng.random() < 0.8:
+                    want = 0x3c00
+                if wide:
+                    ops.append(f'parse {want} {enc(t, True)}')
+                else:
+                    ops.append(f'{rng.choice(["parse", "parsenl", "parsenl"])} {want} {enc(t, False)}')
+                ops.append('dump')
+            yield Case(f'parse{i}', ops)
 
     # ---- oracle ----------------------------------------------------------
     def oracle(self, case, impl):
